@@ -77,11 +77,15 @@ pub fn skip_whitespace(input: &mut LineReader) {
     loop {
         let next = input.reader.request_byte_at_offset(offset);
         match next {
-            Some(b' ') => (),
-            Some(b'\n') => input.line_at_offset(offset + 1),
+            Some(b' ') => offset += 1,
+            Some(b'\n') => {
+                // Advance line by line so that a long run of blank lines is not kept buffered.
+                input.reader.advance(offset + 1);
+                input.line_at_offset(0);
+                offset = 0;
+            }
             _ => break,
         }
-        offset += 1;
     }
     input.reader.advance(offset);
 }
